@@ -291,7 +291,7 @@ def closure_scan_c(cfg: dict, gen: dict) -> typing.List[dict]:
 def include_kind(inc: str) -> str:
     if "nunavut/support" in inc:
         return "support-header-not-generated"
-    if "/" in inc and inc.endswith((".h", ".hpp")):
+    if "/" in inc:
         return "dependency-header-not-generated"
     return "unknown-header|" + normalise_text(inc)
 
@@ -414,6 +414,8 @@ def src_line(d: dict, cache: dict) -> typing.Tuple[str, str, str]:
 
 
 def normalise_text(s: str) -> str:
+    s = re.sub(r"; did you mean .*$", "", unq(s))
+    s = re.sub(r"\b(const|struct|class|volatile) ", "", s)
     s = re.sub(r"(/[\w.+-]+)+/?", "<path>", s)
     s = re.sub(r"[‘’`]", "'", s)
     s = re.sub(r"'[^']*'", "'…'", s)
@@ -516,6 +518,12 @@ def classify_cc(d: dict, cfg: dict, mode: dict, names: dict, cache: dict, outdir
         return {"cause": "deprecated-attribute-fires-inside-generated-code", "detail": "", "scope": ()}
     if opt.endswith("=comment"):
         return {"cause": "doc-comment", "detail": "trailing-backslash" if "multi-line comment" in msg else normalise_text(msg), "scope": ()}
+    m = re.search(r"has no member named '(\w+)'", msg)
+    if m:
+        # declaration and use of a member disagree: a reserved name decorated before stropping in one place, after it in another
+        for n in sorted(names["nonplain"], key=len, reverse=True):
+            if n in m.group(1) and m.group(1) != n:
+                return {"cause": "name|member-declared-and-used-under-different-stropped-names", "detail": m.group(1).replace(n, "<name>"), "scope": ()}
     # an identifier of the universe at the error location
     culprit = culprit_name(msg, line, tok, names)
     if culprit is not None:
@@ -1002,23 +1010,26 @@ def directed_macros() -> dict:
 
 
 def directed_pool() -> dict:
+    """Every name of every non-macro pool as attribute name, once in a structure and once in a union."""
     types = []
+    kinds = [_U8, {"t": "varr", "elem": _U8, "cap": 3, "incl": True}, {"t": "farr", "elem": {"t": "bool"}, "n": 9}, {"t": "float", "bits": 32, "cast": "saturated"}]
     for cls in ("c_kw", "cpp_kw", "py_kw", "pattern", "internal"):
         names = dsdlgen._pool(cls)
         # names folding onto one identifier must not share a scope
         chunks: typing.List[typing.List[str]] = []
         for n in names:
             for ch in chunks:
-                if len(ch) < 6 and dsdlgen.fold(n) not in {dsdlgen.fold(x) for x in ch}:
+                if len(ch) < 8 and dsdlgen.fold(n) not in {dsdlgen.fold(x) for x in ch}:
                     ch.append(n)
                     break
             else:
                 chunks.append([n])
         for i, ch in enumerate(chunks):
-            attrs = [_F(_U8 if j % 2 == 0 else {"t": "varr", "elem": _U8, "cap": 3, "incl": True}, n) for j, n in enumerate(ch)]
+            attrs = [_F(kinds[(i + j) % len(kinds)], n) for j, n in enumerate(ch)]
             if len(attrs) < 2:
                 attrs.append(_F(_U8, "ok"))
-            types.append(_T(["pool", cls], f"P{i}", attrs, union=(i % 2 == 1)))
+            types.append(_T(["pool", cls], f"S{i}", attrs))
+            types.append(_T(["pool", cls], f"U{i}", attrs, union=True))
     return {"roots": [{"name": "pool", "types": types}]}
 
 
@@ -1050,10 +1061,14 @@ def directed_shapes() -> dict:
     ]  # fmt: skip
     types.append(_T(ns, "Docs", [_F(_U8, "x", doc=docs[0]), _F(_U8, "y", doc=docs[3]), _F(_U8, "z", doc=docs[5]), _K(_U8, "K", "1")], doc=docs))
     types.append(_S(ns, "DocSvc", [_F(_U8, "x", doc=docs[0])], [_F(_U8, "y", doc=docs[2])]))
+    # namespaces and a type whose names are reserved in every target, referenced from another namespace and another root
+    kw = _T(ns + ["import", "for", "class"], "while", [_F(_U8, "x")])
+    types.append(kw)
+    types.append(_T(ns + ["def"], "UsesKw", [_F(_ref(kw), "k"), _F({"t": "farr", "elem": _ref(kw), "n": 2}, "ks")]))
     # a dependent root namespace: references into nested namespaces, arrays of foreign types, foreign types in a service
     q = ["shq"]
     qt = [
-        _T(q, "UsesA", [_F(_ref(a), "a"), _F({"t": "varr", "elem": _ref(c), "cap": 2, "incl": True}, "cs"), _F(_ref(e0), "e")]),
+        _T(q, "UsesA", [_F(_ref(a), "a"), _F({"t": "varr", "elem": _ref(c), "cap": 2, "incl": True}, "cs"), _F(_ref(e0), "e"), _F(_ref(kw), "k")]),
         _S(q + ["svc"], "UsesB", [_F(_ref(b), "b")], [_F({"t": "farr", "elem": _ref(types[11]), "n": 2}, "v")]),
     ]
     qt.append(_T(q, "Chain", [_F(_ref(qt[0]), "u")], union=False, sealed=False, extent_extra=1))
@@ -1085,7 +1100,7 @@ def closure_universe(u: dict, keep: typing.Set[str]) -> dict:
         ts = [td for td in r["types"] if type_key(td) in keep]
         if ts:
             roots.append({"name": r["name"], "types": ts})
-    return {"roots": roots}
+    return json.loads(json.dumps({"roots": roots}))  # deep copy: the reducer edits it
 
 
 def candidates_for_file(u: dict, rel: typing.Optional[str]) -> typing.List[str]:
@@ -1221,7 +1236,7 @@ def run(ctx: core.Ctx):
         "exhaustively in its own directed universe and excluded from the random name pools",
         "-fsyntax-only: diagnostics that need optimisation passes (e.g. -Wmaybe-uninitialized) are out of scope",
     ]
-    n_random = 14 if ctx.quick else 240
+    n_random = 20 if ctx.quick else 240
     chunk = 16
     cfgs = all_configs()
     work = Work()
@@ -1249,14 +1264,14 @@ def run(ctx: core.Ctx):
                 raise core.HarnessError(f"{rejected}/{len(randoms)} generated universes rejected by pydsdl (> 2 %)")
             # bounded reduction of one representative per unknown signature
             if not os.environ.get("VF_NO_SHRINK"):
-                sigs = [s for s in ctx.failures if not ctx.is_known(s)][: (10 if ctx.quick else 20)]
+                sigs = [s for s in ctx.failures if not ctx.is_known(s)][:40]
                 ctx.counting = False
                 try:
                     with cf.ThreadPoolExecutor(max_workers=len(sigs) or 1) as outer:
                         futs = {}
                         for s in sigs:
                             rp = ctx.failures[s]["replay"]
-                            futs[s] = outer.submit(reduce_failure, rp["universe"], rp["cfg"], s, rp.get("file"), work, pool)
+                            futs[s] = outer.submit(reduce_failure, rp["universe"], rp["cfg"], s, rp.get("file"), work, pool, 5 if ctx.quick else 16)
                         for s, fut in futs.items():
                             v = fut.result()
                             if v is not None:
@@ -1270,6 +1285,10 @@ def run(ctx: core.Ctx):
                     ctx.counting = True
     finally:
         work.close()
+    import resource
+
+    ru = resource.getrusage(resource.RUSAGE_CHILDREN)
+    agg["cpu_seconds.children"] = int(ru.ru_utime + ru.ru_stime)
     ctx.extra["counters"] = dict(sorted(agg.items()))
     ctx.extra["universes"] = {"directed": len(DIRECTED), "random": len(randoms), "rejected_by_front_end": rejected}
     ctx.extra["flags"] = {"c": cflags, "cxx": cxxflags}
